@@ -148,11 +148,15 @@ def crops(draw, P):
             ov["SxTopQ"] = draw(st.sampled_from([0.02, 0.048, 0.06]))
     if P["switches"]:
         sw = draw(st.lists(st.sampled_from(
-            ["ETadj", "PlantMethod", "GDDmethod", "Determinant", "PolHeatStress", "PolColdStress", "TrColdStress"]),
+            ["ETadj", "PlantMethod", "GDDmethod", "Determinant", "PolHeatStress", "PolColdStress", "TrColdStress"]
+            + (["SwitchGDD"] if (cal and P.get("switch_gdd", True)) else [])),
             min_size=0, max_size=3, unique=True))
         for k in sw:
             if k == "GDDmethod":
                 ov[k] = draw(st.sampled_from([1, 2, 3]))
+            elif k == "SwitchGDD":
+                ov[k] = 1
+                ov["SwitchGDDType"] = draw(st.sampled_from(["mean", "median"]))
             else:
                 ov[k] = draw(st.sampled_from([0, 1]))
     return name, ov
